@@ -19,6 +19,7 @@ ENGINES = {
     "C26": "e7_ns",
     "C27": "e7_ns",
     "C14": "e6_loops",
+    "C37": "e8_omp",
 }
 
 
